@@ -28,6 +28,7 @@ struct Scenario {
     bool spurious_pass = false;       // additionally explore with one injected spurious wake-up
     int horizon = 50000;
     bool delay = false;  // delay-bounded instead of preemption-bounded: option j at any scheduling point costs j
+    bool post_points = true;  // scheduling points also after release-type operations (see vsched.c post_point)
     bool whole = false;  // small scenario: explored entirely by one shard (scenario index % nshards)
 };
 
@@ -170,6 +171,7 @@ inline ExecResult run_one(const Scenario& sc, const std::vector<unsigned char>& 
     sh->user[0] = (int)(&sc - scenario_table()->data());
     sh->user[1] = sc.delay ? 1 : 0;
     sh->user[2] = 0;
+    sh->user[3] = sc.post_points ? 1 : 0;
     if (prefix.size() > VS_MAXPREFIX) {
         vh::out_line("ERROR prefix too long");
         exit(2);
